@@ -203,18 +203,32 @@ func ruleNoFixedScratchAppend(r *Run, p *Prog, rule string, reach map[*ssa.Funct
 					return
 				}
 			}
-			if !isByteSlice(c.Call.Args[0].Type()) {
-				return
+			// the destination is the first argument, or the one after the receiver of a method
+			// (`t.AppendFormat(b[:0], layout)`)
+			var al *ssa.Alloc
+			destIdx := 0
+			if builtinName(&c.Call) != "append" {
+				if sig := c.Call.Signature(); sig != nil && sig.Recv() != nil {
+					destIdx = 1
+				}
 			}
-			sl, ok := c.Call.Args[0].(*ssa.Slice)
-			if !ok {
-				return
+			for k, a := range c.Call.Args {
+				if k != destIdx || !isByteSlice(a.Type()) {
+					continue
+				}
+				sl, ok := a.(*ssa.Slice)
+				if !ok {
+					continue
+				}
+				x, ok := sl.X.(*ssa.Alloc)
+				if !ok {
+					continue
+				}
+				if _, isArr := x.Type().Underlying().(*types.Pointer).Elem().Underlying().(*types.Array); isArr {
+					al = x
+				}
 			}
-			al, ok := sl.X.(*ssa.Alloc)
-			if !ok {
-				return
-			}
-			if _, isArr := al.Type().Underlying().(*types.Pointer).Elem().Underlying().(*types.Array); !isArr {
+			if al == nil {
 				return
 			}
 			r.Ob(rule, FnName(f)+"/fixed-scratch-append", p.Pos(c.Pos()), false, true, FnName(f)+" appends into a slice of the fixed-size local array "+al.Comment+": output longer than the array is moved to the heap (an allocation per event for long inputs), which appending to the destination buffer is not")
